@@ -14,6 +14,8 @@ class HasAbs (K : Type) where abs : K → K        -- modulus, embedded back int
 class HasI (K : Type) where I : K                -- imaginary unit
 class HasPi (K : Type) where pi : K
 class HasIsZero (K : Type) where isZero : K → Bool  -- mirrors `== 0` guards
+class HasRpow (K : Type) where rpow : K → K → K    -- real power `x ** y` (x ≥ 0)
+class HasLtB (K : Type) where ltb : K → K → Bool   -- `x < y` on real values
 
 export HasExp (exp)
 
